@@ -760,6 +760,10 @@ def systematic(col, rng):
             forms += [('.', getattr(T, nm)), ('..', getattr(getattr(T, nm), 'rows')), ('S.', getattr(S, nm)), ('A.', getattr(A, nm))]
         for fk, x in forms:
             check_roundtrip(col, x, 'name-like-a-root %s %r' % (fk, nm), ('rootname', fk, nm))
+    # attribute steps whose name starts with two underscores are written with the documented T.__('name') spelling
+    for x, d in [(T.__('class__'), "T.__('class__')"), (T.a.__('x'), "T.a.__('x')"), (T.__('len__')(), "T.__('len__')()"), (S.__('private'), "S.__('private')"),
+                 (T['k'].__('dict__')['z'], "T['k'].__('dict__')['z']"), (Path('a', T.__('slots__')), "Path('a', T.__('slots__'))"), (T.__('x').__('y'), "T.__('x').__('y')")]:
+        check_roundtrip(col, x, d, ('dunder-attribute', d))
     for x, d in [(T, 'T'), (S, 'S'), (A.a, 'A.a'), (Path(), 'Path()'), (T.__star__(), 'star'),
                  (T.a.__starstar__().b, 'starstar'), (S(k=1), 'S(k=1)'), (S(j='lit', k=T.a), 'S(k=T.a)')]:
         check_roundtrip(col, x, d, ('special', d))
